@@ -52,7 +52,7 @@ def cases(seed, tier):
     out = [{'seed': seed, 'i': i, 'kind': 'plant', 'tier': tier} for i in range(N_PLANT[tier])]
     nm = 60 if tier == 'quick' else 1500
     out += [{'seed': seed, 'i': i, 'kind': 'missing', 'tier': tier} for i in range(nm)]
-    nd = 34 if tier == 'quick' else 340
+    nd = 136 if tier == 'quick' else 850
     out += [{'seed': seed, 'i': i, 'kind': 'directed', 'tier': tier} for i in range(nd)]
     return out
 
